@@ -312,6 +312,7 @@ func TestVerifDriver(t *testing.T) {
 		out, facts, cert := runF(op, in)
 		rec.i++
 		rec.count++
+		vPost(out)
 		b, err := json.Marshal(map[string]interface{}{"t": rec.t, "i": rec.i, "op": op, "in": in, "out": out, "facts": facts, "cert": cert})
 		if err != nil {
 			panic(err)
